@@ -5,6 +5,7 @@ the model: the harness compares the printed 7-digit strings).
 -/
 import Mathlib.Algebra.Order.Field.Rat
 import DL.Model.Print
+import DL.Lemmas.FmtG7
 namespace DL
 
 def leB (asc : Bool) (a b : Line) : Bool := if asc then decide (a.bf ≤ b.bf) else decide (b.bf ≤ a.bf)
@@ -159,5 +160,31 @@ theorem C16_columns (o : PrintOpts) (norm : Rat) (l : Line) :
     (in the model the tables are a value; the runtime clause is checked by the harness) -/
 theorem C16_pure (pdg2evt : List (String × String)) (t : Tables) (m : String) (o o' : PrintOpts) :
     (printRows pdg2evt t m o, t).2 = (printRows pdg2evt t m o', t).2 := rfl
+
+/-! ### "shown to 7 significant digits"
+
+`fmtG7 v` (the model of `'%.7g' % v` on the exact value) is `renderSig7 n e` for `(n, e) = sig7 v`.  The digits are a correct
+rounding: seven of them, and the value differs from `n · 10^(e-6)` by at most half a unit of the seventh digit
+(`DL/Lemmas/FmtG7.lean`: the decimal exponent from digit counts, `floorLog10_spec`; round-half-even, `roundHalfEven_spec`).
+How the digits are laid out (`renderSig7`: positional or scientific, trailing zeros dropped) is compared with the printed text. -/
+
+theorem C16_sig7 (v : Rat) (hv : 0 < v) :
+    10 ^ 6 ≤ (sig7 v).1 ∧ (sig7 v).1 < 10 ^ 7 ∧
+    |v - ((sig7 v).1 : Rat) * (10 : Rat) ^ ((sig7 v).2 - 6)| ≤ 1 / 2 * (10 : Rat) ^ ((sig7 v).2 - 6) :=
+  sig7_spec v hv
+
+/-- the value column of a printed row is that rendering of the exact quotient -/
+theorem C16_shown (o : PrintOpts) (norm : Rat) (l : Line) (h : 0 < l.bf / norm) :
+    (rowOut o norm l).shown = renderSig7 (sig7 (l.bf / norm)).1 (sig7 (l.bf / norm)).2 := by
+  have hne : ¬ (l.bf / norm < 0) := not_lt.2 h.le
+  have hz : (l.bf / norm == 0) = false := by
+    rw [beq_eq_false_iff_ne]; exact ne_of_gt h
+  simp [rowOut, fmtG7, fmtG7Pos, hne, hz]
+
+/-- non-vacuity: 1/3 is shown with the digits 3333333 at exponent -1, 0.0271 / 0.6943 as 3.903212e-02 -/
+example : sig7 (1 / 3) = (3333333, -1) := by decide +kernel
+example : fmtG7 (1 / 3) = "0.3333333" := by decide +kernel
+example : fmtG7 (271 / 6943) = "0.03903212" := by decide +kernel
+example : fmtG7 (12345678 / 1) = "1.234568e+07" := by decide +kernel
 
 end DL
